@@ -246,8 +246,7 @@ func (e *c10Env) queue(f func(), patience time.Duration) bool {
 	}
 }
 
-func (e *c10Env) udpSender(port, first int) {
-	stop := e.udpStop
+func (e *c10Env) udpSender(stop chan struct{}, port, first int) {
 	conn, err := net.Dial("udp", fmt.Sprintf("127.0.0.1:%d", port))
 	if err != nil {
 		return
@@ -283,9 +282,9 @@ func (e *c10Env) startSenders() {
 		e.blocker = nil
 	}
 	e.udpStop = make(chan struct{})
-	go e.udpSender(e.udpPort, 0)
+	go e.udpSender(e.udpStop, e.udpPort, 0)
 	if e.udpPort2 != 0 {
-		go e.udpSender(e.udpPort2, 100)
+		go e.udpSender(e.udpStop, e.udpPort2, 100)
 	}
 	time.Sleep(20 * time.Millisecond)
 }
@@ -460,12 +459,9 @@ func c10Run(c c10Case) (v vVerdict) {
 		if udpSilent && c.FailBy == "overlap" && st0 == Inactive && e.c.Nchan >= 2 {
 			// the hardware already sends, but two groups claim the same channel number: sampling must refuse the layout
 			overlapStop = make(chan struct{})
-			saved := e.udpStop
-			e.udpStop = overlapStop
-			go e.udpSender(e.udpPort, 0)
-			go e.udpSender(e.udpPort, e.c.Nchan-1) // the senders' groups are e.c.Nchan wide: these two share one channel number
+			go e.udpSender(overlapStop, e.udpPort, 0)
+			go e.udpSender(overlapStop, e.udpPort, e.c.Nchan-1) // the senders' groups are e.c.Nchan wide: these two share one channel number
 			time.Sleep(20 * time.Millisecond)
-			e.udpStop = saved
 		}
 		var err error
 		if bad := c10Watch("Start", func() { err = Start(e.ds, e.queued, 10, 30) }, "Start"); bad != nil {
